@@ -1,4 +1,5 @@
 """C04 — nodes pipelines compute exactly their sequential reference semantics."""
+import conc_common as cc
 import nodes_impl as ni
 
 PID = "C04"
@@ -10,20 +11,36 @@ FUNCS = [
     "torchdata/nodes/batch.py:Batcher", "torchdata/nodes/batch.py:Unbatcher", "torchdata/nodes/filter.py:Filter",
     "torchdata/nodes/prefetch.py:Prefetcher", "torchdata/nodes/adapters.py:IterableWrapper", "torchdata/nodes/adapters.py:SamplerWrapper",
 ]
-RULE = ("(seq) random well-typed pipelines over the full operator grammar, three consecutive epochs of the bare root node compared item by item with the "
+RULE = ("(sched) real Prefetcher / ParallelMapper(thread, in_order true/false) under the deterministic scheduler, seven schedule biases, one to three epochs with "
+        "reset / reset(loaded state): outcomes equal the list reference (in order, or as a multiset per epoch for in_order=False) and every scheduler step is replayed "
+        "on ConcModel.v; (seq) random well-typed pipelines over the full operator grammar, three consecutive epochs of the bare root node compared item by item with the "
         "model and with an independent Python list reference; (conc) ParallelMapper/Prefetcher with thread and process workers, in_order true/false, "
         "max_concurrent, prebatch, and per-item random delays in the map function so that results overtake each other; non-trivial = epoch length >= 2 and "
         "depth >= 2; distinct = distinct (pipeline, parameters, delay seed)")
-TRUSTED = ["concurrent operators are compared with the model through their sequential specification here; the interleaving-level model is ConcModel.v",
+SHARD = 60
+TRUSTED = ["(seq) concurrent operators are compared with the model through their sequential specification; (sched) the interleaving-level model is ConcModel.v, "
+           "replayed step by step on the schedule the real threads ran under (harness/sched_threads.py)",
            "harness user code (FAdd/FWrap/Pred/StatefulList/EpochSampler/SlowAdd)"]
 ASSUMPTIONS = ["map functions are deterministic functions of the item"]
 NPROC = 14
 CASE_TIMEOUT = 120
 
 
+def imports_of(c):
+    return cc.IMPORTS if c.get("sched") else IMPORTS
+
+
+def sched_oracle(c, r, ref_fails):
+    return "; ".join(ref_fails[:2]) or None
+
+
 def gen_cases(rng, tier, drift):
-    n_seq, n_conc, n_proc = (350, 120, 10) if tier == "quick" and not drift else (5000, 1500, 100)
+    n_seq, n_conc, n_proc, n_sched = (350, 120, 10, 160) if tier == "quick" and not drift else (5000, 1500, 100, 3000)
     cases = []
+    for i in range(n_sched):
+        c = cc.gen_case(rng, errors=False, loads=(i % 4 == 0), join_timeouts=False, unordered=True)
+        c["sched"] = True
+        cases.append(c)
     for _ in range(n_seq):
         cases.append(dict(kind="seq", pipe=ni.gen_well_typed_pipe(rng, max_depth=rng.choice([1, 2, 3, 4, 5]), threads=rng.random() < 0.5)))
     for i in range(n_conc + n_proc):
@@ -41,6 +58,9 @@ def gen_cases(rng, tier, drift):
 def distribution(cases):
     d = {}
     for c in cases:
+        if c.get("sched"):
+            d["scheduled"] = d.get("scheduled", 0) + 1
+            continue
         k = c["kind"] + ("/" + c["method"] + ("/in_order" if c["in_order"] else "/unordered") if c["kind"] == "conc" else "")
         d[k] = d.get(k, 0) + 1
     return d
@@ -71,6 +91,8 @@ def drain(node, limit=10000):
 
 
 def run_impl(c):
+    if c.get("sched"):
+        return cc.run_impl_with(c, sched_oracle)
     if c["kind"] == "seq":
         p = c["pipe"]
         node = ni.build(p)
@@ -122,6 +144,8 @@ def run_impl(c):
 
 
 def model_term(c, r):
+    if c.get("sched"):
+        return cc.model_term(c, r)
     return f"node_epochs_obs {ni.coq_pipe(c['pipe'])} 3"
 
 
